@@ -10,11 +10,15 @@ Reading of the property (what the oracle demands; chosen so that minimally repai
   as the time-ordered sequences of sustain (64) and soft (67) events; other controllers are not stored.
 * Domain (what a "partial alignment" is): every performed note occurs in exactly one entry of kind
   match / insertion / ornament, every score note in at most one entry of kind match / deletion, ornaments
-  refer to any score note; at least two distinct score onsets carry a matched non-grace note with distinct
-  mean performed onsets (the exporter orders insertions by a performance-time -> score-time interpolation,
-  which does not exist otherwise).  Performed note ids follow the format's convention `n<...>`.
+  refer to any score note; at least one score note is stored (a match or a deletion: without one there is no
+  score to load).  Alignments WITHOUT any match, or whose only matches are grace notes, are part of the domain
+  (fix C08-13: there is then no performance-time -> score-time map and the performed-only lines follow the score
+  lines; with one matched onset the map is constant).  The score onsets that carry a matched non-grace note have
+  distinct mean performed onsets (equal ones divide by zero inside scipy).  Performed note ids follow the
+  format's convention `n<...>`.
   Score notes that occur in no match/deletion entry are not stored by the format, so they are not demanded
-  back; neither are bars that hold no stored note.
+  back; neither are bars that hold no stored note (theorem `empty_bars_not_stored`: two scores that differ only
+  in such bars are written to the same file).
 * Score times are stored as measure:beat + offset (fraction of a whole note, numerator and denominator
   <= 1024: the format's FractionalSymbolicDuration approximates beyond that, so cases stay inside) and as
   beat times printed with four decimals.  Loaded score notes are demanded at the same onset IN BEATS and
@@ -27,7 +31,8 @@ Reading of the property (what the oracle demands; chosen so that minimally repai
   The reader's divisions are the lcm of the written offset/duration denominators; the distance of a bar line
   from the loaded origin is written nowhere as a fraction (only the four-decimal beat times tell it), so the
   score clauses are demanded when every bar line of a stored note lies on that grid (e.g. not for a pickup
-  of two triplet eighths whose aligned notes are all quarters).
+  of two triplet eighths whose aligned notes are all quarters; theorem `barline_off_grid`), the signature clauses
+  when moreover every signature after the origin lies on it.
 * "measures at the same positions": for every saved measure holding a stored note whose start is not
   before the first stored note, the loaded part has a measure starting at the same beat.  The format
   stores no measure for a bar without a stored note (the reader extends the previous measure over it, so
@@ -46,8 +51,18 @@ Reading of the property (what the oracle demands; chosen so that minimally repai
 * De-duplication as documented in validate_match_ids: exact duplicate text lines are read once; if a
   score id occurs in several snote-carrying lines all DELETION lines with that id are dropped; if a
   performed id occurs in several note-carrying lines all INSERTION lines with that id are dropped;
-  matches are always kept; nothing else is dropped, nothing is duplicated.  (The version is taken from the
-  first line of the file, so the generated duplicates never displace that line.)
+  matches are always kept; nothing else is dropped, nothing is duplicated.
+* Empty lines are skipped by the reader wherever they stand - also before the version line (fix C08-12): a
+  written file with empty lines inserted anywhere loads to the same triple (kind "blank": the full round-trip
+  oracle).
+* Older formats (0.1.0 - 0.5.0; the exporter writes 1.0.0 only): the content of a generated case is written with
+  the line classes of matchlines_v0 (kind "v0": info / meta / snote / note / trill / pedal lines built from the
+  exporter's own line objects) and must load to the same alignment (every ornament is a trill there), performance
+  and score.  The signature at the start of the score is the global info line of those formats (no position: in
+  force from the loaded origin, fix C08-14), every later change a meta line (0.3.0 and later; cases with a change
+  are written in one of those versions); deletions and insertions use the old sub-kinds (trailing_score_note,
+  no_played_note, hammer_bounce, trailing_played_note) at random.  A quarter of these files also get duplicate /
+  conflicting lines injected (de-duplication on the old formats).
 * Every case runs under a wall-clock limit; a writer/reader that does not terminate is a failure.
 """
 import io
@@ -69,51 +84,74 @@ PROPS = ["PartituraModel.Props.C08", "PartituraModel.Props.C08Mixed", "Partitura
          "PartituraModel.Props.C08Format"]
 TRUSTED = [
     "C07 (line level): the text of a line <-> its fields; the correspondence reads the written text with its own "
-    "regular expressions and the reader's input with the real line parsers",
+    "regular expressions and the reader's input with the real line parsers; the synthesised old-format files are "
+    "written by the line classes of matchlines_v0 themselves",
     "'%.4f' rendering of a beat time and float() of that text = nearest multiple of 1/10000 (model: dec4, exact "
     "rationals; beat times k/(4*divs) with divs <= 480 never sit on a x.00005 boundary)",
     "binary64 arithmetic of part_from_matchfile (positions in quarters, divs*(...) before round/int) is modelled "
     "exactly; the implementation's values are within 1e-9 of the exact ones and never near a rounding boundary "
-    "for divisions <= 4*480 (checked by the comparison, not proved)",
+    "for divisions <= 4*480 (checked by the comparison, not proved); in the synthesised old-format files the beat "
+    "times are binary64 reprs, and whether the last bar line lies at or just before a time-signature change is "
+    "float noise: the END of the last bar is not compared for them",
     "seconds_to_midi_ticks / midi_ticks_to_seconds: binary64 product modelled exactly (C12)",
     "numpy: np.unique(return_index) keeps first occurrences in order after np.sort(idx); np.lexsort and "
-    "list.sort are stable; np.lcm.reduce; np.isclose(a,b,atol) = |a-b| <= atol + 1e-5*|b|; np.searchsorted",
-    "scipy interp1d kind='previous' with fill values (first,last) and kind='linear' with extrapolation; the "
-    "performance-time -> score-time map is built from float32 note-array columns: the model uses the float32 "
-    "onsets exactly and exact means, keys are compared with tolerance 2e-4 and the order of the lines only "
-    "when no two keys involving an interpolated one are closer than 1e-3",
+    "list.sort are stable, NaN sorts after every number; np.lcm.reduce; np.isclose(a,b,atol) = |a-b| <= atol + "
+    "1e-5*|b|; np.searchsorted",
+    "scipy interp1d kind='previous' with fill values (first,last) and kind='linear' with extrapolation; "
+    "partitura.utils.generic.interp1d returns the single value for a one-point map; the performance-time -> "
+    "score-time map is built from float32 note-array columns: the model uses the float32 onsets exactly and exact "
+    "means, keys are compared with tolerance 2e-4 and the order of the lines only when no two keys involving an "
+    "interpolated one are closer than 1e-3",
     "Part.beat_map / time_signature_map / quarter_duration_map / iter_all of the score being written (C02, C10): "
     "modelled as the piecewise-linear beat function with the pickup shift",
     "score.add_measures / tie_notes / find_tuplets after the reconstruction (C11): only onsets, tied durations, "
     "the importer's own measures and the signatures are compared",
 ]
 PARTIAL = [
-    "bars_recovered_partial / onset_roundtrip_partial: the error bound of the reconstructed bar start is proved "
-    "for scores whose time signatures all share one beat type (any number of changes of the beat count); with "
-    "mixed beat types the beats->quarters map is compared, not proved",
-    "position_roundtrip assumes the reconstructed bar start is within 1/(2*divs) of the written one (discharged "
-    "by bars_recovered_partial) and that divs*(position in quarters) is integral (discharged by divs_sufficient "
-    "for offsets; for the bar start itself it is a hypothesis: first stored note of the piece on the division grid)",
-    "order of the written lines and get_time_maps_from_alignment (scipy interpolation over float32 columns): "
-    "compared only",
-    "bars without a stored note: the reader extends the previous measure over them (no measure is stored); the "
-    "score clause of the oracle is restricted to alignments that touch every bar between their first and last "
-    "stored note",
+    "bars_recovered / onset_roundtrip (all beat types) hold for written scores with fewer than 2500 divisions per "
+    "quarter and conclude exactness under the explicit condition divisions * (1/(5000*beat type) + |knotErr|) < 1/2 "
+    "(sum over the two notes a position is derived from): knotErr = 0 when the time-signature changes fall on beat "
+    "times that four decimals hold exactly (bars_recovered_exact_changes: whole beats), |knotErr| <= changes/5000 "
+    "always (knotErr_le); beyond that bound the format's four decimals do not determine the position",
+    "the position theorems assume the true position lies on the reader's division grid (hgrid / hz): inherent - "
+    "the reader's divisions come from the written fractions only (theorem barline_off_grid gives a score whose bar "
+    "line is off that grid); the oracle applies the score clauses only on the grid",
+    "bars_recovered: the first stored note of the bar must not start exactly at the end of the last stored note "
+    "unless it lies in the stretch of the last time signature (hend; the importer's beat-type map carries an extra "
+    "end point there) - mirrored by the model and compared",
+    "the theorems are about the pieces (encode, barTime, notePos, durDivs, importDivs, validate, lexsort); that "
+    "part_from_matchfile composes them as the model's `reconstruct` does (sorting of the snotes, first note of each "
+    "bar, fallback to OnsetInBeats not firing, signatures) is COMPARED - also end to end: the model's write-then-"
+    "read `Score.roundTrip` of the saved score against the loaded part (requests rtq / rtn) - not proved",
+    "order of the written lines: line_order (permutation, sorted by the documented key, stable) and "
+    "time_map_places (the map passes through the matched onsets and is monotone when they are performed in score "
+    "order) are proved; the knots themselves (means of float32 onsets per score onset, grace-only onsets left out) "
+    "and the float32/float64 arithmetic of scipy are compared only",
+    "bars without a stored note: inherent (theorem empty_bars_not_stored); the reader extends the previous measure "
+    "over them; the beat-position and measure clauses of the oracle are restricted to alignments that touch every "
+    "bar between their first and last stored note",
     "FractionalSymbolicDuration.bound_integers (numerator or denominator > 1024) is outside the generated domain",
     "additive duration components and tuple divisors occur only in the fixture files (compared, not proved)",
 ]
-RULE = ("seeded random single-divs parts (13 division values, 13 time signatures, pickups, changes of time and key "
-        "signature at bar starts, 1-3 voices, 1-2 staves, chords, ties within and across bars, grace notes, rests, "
-        "articulations) x random performances (tick grid and off grid, 6 ppq x 6 mpq choices, sustain/soft/other "
-        "controllers incl. duplicates) x random alignments (match/deletion/omitted, insertions, ornaments, shuffled); "
-        "every 4th case is re-read after injecting duplicate / conflicting lines; plus the repository's match files. "
-        "distinct = distinct sub-seed (or file); non-trivial = a file was written and read")
+RULE = ("seeded random single-divs parts (13 division values, 13 time signatures incl. changes of the beat type, pickups, "
+        "changes of time and key signature at bar starts, 1-3 voices, 1-2 staves, chords, ties within and across bars, "
+        "grace notes, rests, articulations) x random performances (tick grid and off grid, 6 ppq x 6 mpq choices, "
+        "sustain/soft/other controllers incl. duplicates) x random alignments (match/deletion/omitted, insertions, "
+        "ornaments, shuffled; 5% without any match, 3% with a single match); every 4th case is re-read after injecting "
+        "duplicate / conflicting lines; every 7th with empty lines inserted (also before the version line); every 3rd "
+        "is also written as a version 0.1.0-0.5.0 file with the line classes of matchlines_v0 and loaded (a quarter "
+        "of those with injected duplicates); plus the repository's match files. "
+        "distinct = distinct sub-seed (or file) and kind; non-trivial = a file was written and read")
 LEVEL_TEXT = ("Lean 4 theorems about an executable model of the match-file time arithmetic (exporter: measure:beat + "
-              "offset/duration fractions; importer: divisions = lcm of denominators, bar starts from the first note "
-              "of each bar, round(divs * position)), the reader's de-duplication rule and the alignment extraction, "
-              "for all inputs; the model is tied to the code by comparing, on generated scores/performances/"
-              "alignments and on the repository's match files, the written text (score fields, ticks, pedal lines, "
-              "line order) and the loaded part/performance/alignment with the model's output.")
+              "offset/duration fractions; importer: divisions = lcm of denominators, beats->quarters map over time "
+              "signatures of mixed beat types, bar starts from the first note of each bar, round(divs * position)), the "
+              "reader's de-duplication rule, the alignment extraction and the order of the written lines, for all "
+              "inputs, plus theorems stating what the format cannot hold (bars without a stored note, bar lines off the "
+              "reader's grid); the model is tied to the code by comparing, on generated scores/performances/alignments "
+              "(1.0.0 files written by save_match, 0.1.0-0.5.0 files synthesised with the old line classes) and on "
+              "the repository's match files, the written text (score fields, ticks, pedal lines, line order) and the "
+              "loaded part/performance/alignment with the model's output, including the model's own write-then-read "
+              "composition.")
 SEARCH_LIMIT = 1500
 
 REPO = os.environ.get("VERIF_REPO", "/repo")
@@ -657,7 +695,13 @@ def oracle_rt(desc, res, v0=False):
     if ("load_error2" in res or "perf" not in res) and not v0:
         F += oracle_text(desc, res)
     if "load_error" in res:
-        F.append("load: load_match(create_score=True) raised %s" % res["load_error"])
+        if "perf" in res and any(a["label"] in ("match", "deletion") for a in desc["align"]) and not grid_ok(desc):
+            # a bar line of a stored note lies off the reader's division grid (theorem barline_off_grid): two bar
+            # lines less than half a division apart are rounded onto each other and add_measures asserts
+            F.append("load-offgrid: load_match(create_score=True) raised %s for a score whose stored bar lines are off "
+                     "the reader's division grid" % res["load_error"])
+        else:
+            F.append("load: load_match(create_score=True) raised %s" % res["load_error"])
     if "load_error2" in res:
         F.append("load: load_match(create_score=False) raised %s" % res["load_error2"])
         return F
@@ -914,6 +958,10 @@ def oracle_quarters(desc, res, stored, v0=False):
             if val(x) != prev:
                 changes.append(x)
             prev = val(x)
+        if any((Fraction(x[0] - o_ref, divs) * ldivs).denominator != 1 for x in changes if x[0] > o_ref):
+            # a signature off the reader's division grid (its position is rounded, possibly onto the origin, where it
+            # replaces the signature before it): the same restriction as for the bar lines of stored notes
+            continue
         for i, x in enumerate(changes):
             v = val(x)
             if i + 1 < len(changes) and changes[i + 1][0] <= o_ref:
